@@ -4,6 +4,7 @@ import (
 	"errors"
 	"fmt"
 	"math"
+	"reflect"
 
 	"verifharness/core"
 	"verifharness/ref"
@@ -21,8 +22,41 @@ type valueErr struct{ a, b int }
 
 func (e valueErr) Error() string { return "value error" }
 
+// sliceErr and mapErr are error types whose values are neither comparable nor hashable.
+type sliceErr []string
+
+func (e sliceErr) Error() string { return "slice error" }
+
+type mapErr map[string]int
+
+func (e mapErr) Error() string { return "map error" }
+
+// sameErr is interface identity for comparable errors and identity of the underlying
+// storage for the uncomparable kinds (== would panic on them).
+func sameErr(got, want error) bool {
+	switch w := want.(type) {
+	case sliceErr:
+		g, ok := got.(sliceErr)
+		return ok && len(g) == len(w) && len(g) > 0 && &g[0] == &w[0]
+	case mapErr:
+		g, ok := got.(mapErr)
+		return ok && reflect.ValueOf(g).Pointer() == reflect.ValueOf(w).Pointer()
+	}
+	switch got.(type) {
+	case sliceErr, mapErr:
+		return false
+	}
+	return got == want
+}
+
 // mkErr builds a fresh error value of the given kind (all kinds are comparable with ==).
 func mkErr(kind int64) error {
+	switch kind {
+	case 8:
+		return sliceErr{"a", "b"}
+	case 9:
+		return mapErr{"k": 1}
+	}
 	switch kind % 4 {
 	case 0:
 		return errors.New("handler failure")
@@ -81,15 +115,18 @@ func delegatedErr(kind int64, data []byte, buf *rjson.Buffer) error {
 // inner traversal started by the outer handler on the first container member; the outer
 // handler passes the inner error on unchanged.
 func c09Check(in []byte, kind byte, failAt int, offSel, errKind int64, nested bool, bits uint64, buf *rjson.Buffer) (reached, nontrivial bool, err error) {
-	sentinel := mkErr(errKind % 4)
+	sentinel := mkErr(errKind % 10)
+	if errKind%10 < 8 {
+		sentinel = mkErr(errKind % 4)
+	}
 	var usedOff int
 	if !nested {
 		h := &recHandler{limit: len(in) + 2}
 		h.decide = func(k int, key, data []byte) (int, error) {
 			if k == failAt {
 				usedOff = hostileOffset(offSel, data)
-				if errKind%8 >= 4 {
-					if de := delegatedErr(errKind, data, buf); de != nil {
+				if errKind%10 >= 4 && errKind%10 < 8 {
+					if de := delegatedErr(errKind%10, data, buf); de != nil {
 						sentinel = de // the handler passes on the library's own error value
 					}
 				}
@@ -107,7 +144,7 @@ func c09Check(in []byte, kind byte, failAt int, offSel, errKind int64, nested bo
 		if len(h.calls) != failAt+1 {
 			return true, true, fmt.Errorf("handler returned an error on call %d but was called %d times in total", failAt, len(h.calls))
 		}
-		if gerr != sentinel {
+		if !sameErr(gerr, sentinel) {
 			return true, true, fmt.Errorf("traversal returned %#v (%v); the handler's error value was %#v", gerr, gerr, sentinel)
 		}
 		return true, failAt >= 1 || usedOff != 0, nil
@@ -130,8 +167,8 @@ func c09Check(in []byte, kind byte, failAt int, offSel, errKind int64, nested bo
 			if ik == failAt {
 				failed = true
 				usedOff = hostileOffset(offSel, idata)
-				if errKind%8 >= 4 {
-					if de := delegatedErr(errKind, idata, buf); de != nil {
+				if errKind%10 >= 4 && errKind%10 < 8 {
+					if de := delegatedErr(errKind%10, idata, buf); de != nil {
 						sentinel = de
 					}
 				}
@@ -147,7 +184,7 @@ func c09Check(in []byte, kind byte, failAt int, offSel, errKind int64, nested bo
 			if len(inner.calls) != failAt+1 {
 				return p, fmt.Errorf("inner handler called %d times after failing at %d", len(inner.calls), failAt)
 			}
-			if ierr != sentinel {
+			if !sameErr(ierr, sentinel) {
 				return p, fmt.Errorf("inner traversal returned %#v instead of the handler's error", ierr)
 			}
 			return p, ierr // pass it on unchanged
@@ -161,7 +198,7 @@ func c09Check(in []byte, kind byte, failAt int, offSel, errKind int64, nested bo
 	if outerAfter != 0 {
 		return true, true, fmt.Errorf("outer handler was called %d more times after its call returned an error", outerAfter)
 	}
-	if gerr != sentinel {
+	if !sameErr(gerr, sentinel) {
 		return true, true, fmt.Errorf("outer traversal returned %#v (%v); the inner handler's error value was %#v", gerr, gerr, sentinel)
 	}
 	return true, true, nil
